@@ -183,6 +183,9 @@ def gen_acl_case(rng, platform, n=None, small_p=0.8, tail_pairs=0):
             desc = dict(rng.choice(descs))
         descs.append(desc)
         lines.append(sc.compose(desc, platform))
+    if len(lines) >= 3 and rng.random() < 0.2:
+        # a catch-all entry somewhere above the end (everything below it of the same action is covered; the other action is not)
+        lines.insert(rng.randint(0, len(lines) - 2), f"{rng.choice(['permit', 'deny'])} ip any any")
     for _ in range(tail_pairs):
         # covers that are private to one pair, at the far end of a long ACL
         pair = sc.gen_related_pair(rng, platform, groups=False, small=None)
